@@ -296,5 +296,5 @@ UNITS.append(Unit("C07", "jsonargparse._signatures:SignatureArguments._create_gr
                   trusted=["add_argument_group / group.add_argument by contract (add_argument: its own unit)"]))
 
 
-from contracts.signature_units import add_class_arguments_unit  # noqa: E402
-UNITS.append(add_class_arguments_unit("C07"))
+from contracts.signature_units import add_class_arguments_unit, add_subclass_arguments_unit  # noqa: E402
+UNITS += [add_class_arguments_unit("C07"), add_subclass_arguments_unit("C07")]
